@@ -388,17 +388,17 @@ End Driver.
 (* 2. what generate_tables returns                                                                    *)
 (* ================================================================================================ *)
 Lemma generate_inv ms g prefix S eof g' tab confs states :
-  start_ok g S eof -> rhs_closed g ->
+  wf_grammar g -> start_ok g S eof -> rhs_closed g ->
   generate_tables ms g prefix S eof = Ok (g', tab, confs, states) ->
   calculate_first_sets (ext_grammar g S eof) = Ok g' /\
   SInv g eof g' states /\ Done g' (length states) states /\
   exists rows jrows, tab = mkTab rows jrows /\ tabs_ok g' prefix states rows jrows.
 Proof.
-  intros SOK RC H. unfold generate_tables in H. bind_inv H r Hr. destruct r as [g5 sts].
+  intros WF SOK RC H. unfold generate_tables in H. bind_inv H r Hr. destruct r as [g5 sts].
   bind_inv H t Ht. destruct t as [[rows jrows] cf]. inversion H; subst.
   rewrite elements_unfold in Hr. bind_inv Hr g5' H5. bind_inv Hr h Hh. bind_inv Hr sts' Hl.
   inversion Hr; subst.
-  destruct (elements_inv g S eof SOK RC g' H5 ms h states Hh Hl) as [A B].
+  destruct (elements_inv g S eof WF SOK RC g' H5 ms h states Hh Hl) as [A B].
   split; auto. split; auto. split; auto. exists rows, jrows. split; auto.
   eapply fill_states_J; eauto.
 Qed.
@@ -421,6 +421,33 @@ Definition g_sound_cex : grammar := mkG 1 [(Nt 0, [[Nt 2]])] [] 0.      (* S -> 
 Definition g_safe_cex : grammar := mkG 1 [(Nt 0, [[Tm 0; Nt 0]; [Tm 1]])] [] 0.   (* S -> eof S | a *)
 Definition g_total_cex : grammar := mkG 1 [(Nt 0, [[Nt 7]])] [] 0.      (* S -> Nt 7, no such row in the jump table *)
 
+Definition out_g (r : result (grammar * tables * list conflict * list lrstate)) : grammar :=
+  match r with Ok (g, _, _, _) => g | _ => empty_grammar end.
+Definition out_tab (r : result (grammar * tables * list conflict * list lrstate)) : tables :=
+  match r with Ok (_, t, _, _) => t | _ => mkTab [] [] end.
+Definition out_states (r : result (grammar * tables * list conflict * list lrstate)) : list lrstate :=
+  match r with Ok (_, _, _, s) => s | _ => [] end.
+
+Definition sound_cex_g := Eval vm_compute in out_g (generate_tables 50 g_sound_cex false (Nt 0) (Tm 0)).
+Definition sound_cex_tab := Eval vm_compute in out_tab (generate_tables 50 g_sound_cex false (Nt 0) (Tm 0)).
+Definition sound_cex_states := Eval vm_compute in out_states (generate_tables 50 g_sound_cex false (Nt 0) (Tm 0)).
+Lemma sound_cex_gen :
+  generate_tables 50 g_sound_cex false (Nt 0) (Tm 0) = Ok (sound_cex_g, sound_cex_tab, [], sound_cex_states).
+Proof. vm_compute. reflexivity. Qed.
+Lemma sound_cex_run :
+  parse (fun x : N => x) (fun _ => tt) (fun _ _ _ => tt) sound_cex_tab 50 [0; 0] = Ok (Some tt).
+Proof. vm_compute. reflexivity. Qed.
+
+Definition safe_cex_g := Eval vm_compute in out_g (generate_tables 50 g_safe_cex false (Nt 0) (Tm 0)).
+Definition safe_cex_tab := Eval vm_compute in out_tab (generate_tables 50 g_safe_cex false (Nt 0) (Tm 0)).
+Definition safe_cex_states := Eval vm_compute in out_states (generate_tables 50 g_safe_cex false (Nt 0) (Tm 0)).
+Lemma safe_cex_gen :
+  generate_tables 50 g_safe_cex false (Nt 0) (Tm 0) = Ok (safe_cex_g, safe_cex_tab, [], safe_cex_states).
+Proof. vm_compute. reflexivity. Qed.
+Lemma safe_cex_run :
+  parse (fun x : N => x) (fun _ => tt) (fun _ _ _ => tt) safe_cex_tab 50 [0] = UB ub_iter.
+Proof. vm_compute. reflexivity. Qed.
+
 Lemma cex_wf alts : (forall alt, In alt alts -> ~ In Eps alt) -> wf_grammar (mkG 1 [(Nt 0, alts)] [] 0).
 Proof.
   intros HE. constructor; cbn [right_sides first_sets map fst].
@@ -441,17 +468,14 @@ Qed.
 Lemma C13_sound_stmt_false : ~ C13_sound_stmt.
 Proof.
   intros HC.
-  assert (HR : exists g' tab states,
-            generate_tables 50 g_sound_cex false (Nt 0) (Tm 0) = Ok (g', tab, [], states) /\
-            parse (fun x : N => x) (fun _ => tt) (fun _ _ _ => tt) tab 50 [0; 0] = Ok (Some tt)).
-  { vm_compute. eexists _, _, _. split; reflexivity. }
-  destruct HR as (g' & tab & states & HG & HP).
+  pose proof sound_cex_gen as HG. pose proof sound_cex_run as HP.
+  set (g' := sound_cex_g) in *. set (tab := sound_cex_tab) in *. set (states := sound_cex_states) in *.
   destruct (HC N unit (fun x => x) (fun _ => tt) (fun _ _ _ => tt) 50%nat g_sound_cex false (Nt 0) (Tm 0)
                g' tab states 50%nat [0; 0] tt) as (tr & rest & Hv & Hr & _);
     [| |exact HG|exact HP|].
   - apply cex_wf. intros alt [<-|[]] [H|[]]. discriminate.
   - apply cex_start_ok.
-  - destruct tr as [tok|lhs alt ch]; cbn [root] in Hr; [discriminate|]. subst lhs.
+  - clear HG HP HC. destruct tr as [tok|lhs alt ch]; cbn [root] in Hr; [discriminate Hr|]. subst lhs.
     apply valid_inner_inv in Hv. destruct Hv as (rhs & Hn & Hm & Hf).
     change (rs_get g_sound_cex (Nt 0)) with [[Nt 2]] in Hn.
     destruct (N.to_nat alt) as [|k]; cbn [nth_error] in Hn; [|destruct k; discriminate].
@@ -467,18 +491,15 @@ Qed.
 Lemma C13_driver_safe_stmt_false : ~ C13_driver_safe_stmt.
 Proof.
   intros HC.
-  assert (HR : exists g' tab states,
-            generate_tables 50 g_safe_cex false (Nt 0) (Tm 0) = Ok (g', tab, [], states) /\
-            parse (fun x : N => x) (fun _ => tt) (fun _ _ _ => tt) tab 50 [0] = UB ub_iter).
-  { vm_compute. eexists _, _, _. split; reflexivity. }
-  destruct HR as (g' & tab & states & HG & HP).
+  pose proof safe_cex_gen as HG. pose proof safe_cex_run as HP.
+  set (g' := safe_cex_g) in *. set (tab := safe_cex_tab) in *. set (states := safe_cex_states) in *.
   destruct (HC N unit (fun x => x) (fun _ => tt) (fun _ _ _ => tt) 50%nat g_safe_cex false (Nt 0) (Tm 0)
                g' tab states [0]) with (fuel := 50%nat) as [HF|[r HF]]; [| |exact HG| | |].
   - apply cex_wf. intros alt [<-|[<-|[]]] H; cbn in H; intuition discriminate.
   - apply cex_start_ok.
   - exists [], 0, []. split; reflexivity.
-  - rewrite HP in HF. discriminate.
-  - rewrite HP in HF. discriminate.
+  - rewrite HP in HF. discriminate HF.
+  - rewrite HP in HF. discriminate HF.
 Qed.
 
 Lemma C13_generate_total_stmt_false : ~ C13_generate_total_stmt.
@@ -488,8 +509,8 @@ Proof.
   destruct (HC 50%nat g_total_cex false (Nt 0) (Tm 0)) as [HF|[r HF]].
   - apply cex_wf. intros alt [<-|[]] [H|[]]. discriminate.
   - apply cex_start_ok.
-  - rewrite HR in HF. discriminate.
-  - rewrite HR in HF. discriminate.
+  - rewrite HR in HF. discriminate HF.
+  - rewrite HR in HF. discriminate HF.
 Qed.
 
 (* ================================================================================================ *)
@@ -514,7 +535,7 @@ Lemma C13_sound_partial : C13_sound_partial_stmt.
 Proof.
   intros T V translator creator semantic ms g prefix S eof g' tab confs states fuel input v
          WF SOK RC HG HP.
-  destruct (generate_inv _ _ _ _ _ _ _ _ _ SOK RC HG) as (H5 & HS & HD & rows & jrows & -> & HT).
+  destruct (generate_inv _ _ _ _ _ _ _ _ _ WF SOK RC HG) as (H5 & HS & HD & rows & jrows & -> & HT).
   unfold parse in HP.
   destruct (lr_sound translator creator semantic g S eof SOK g' H5 prefix states HS rows jrows HT
               v fuel input [0%Z] []) as (tr & rest & A & B & C & D & E).
@@ -537,11 +558,35 @@ Lemma C13_driver_safe_partial : C13_driver_safe_partial_stmt.
 Proof.
   intros T V translator creator semantic ms g prefix S eof g' tab confs states input
          WF SOK RC EF HG HE fuel.
-  destruct (generate_inv _ _ _ _ _ _ _ _ _ SOK RC HG) as (H5 & HS & HD & rows & jrows & -> & HT).
+  destruct (generate_inv _ _ _ _ _ _ _ _ _ WF SOK RC HG) as (H5 & HS & HD & rows & jrows & -> & HT).
   unfold parse.
   apply (lr_safe translator creator semantic g S eof SOK g' H5 prefix states HS rows jrows HT HD EF
            fuel input [0%Z] []); auto.
   constructor.
+Qed.
+
+Definition C13_generate_total_partial_stmt : Prop :=
+  forall max_states g prefix S eof, wf_grammar g -> start_ok g S eof -> rhs_closed g ->
+    generate_tables max_states g prefix S eof = Fuel \/
+    exists r, generate_tables max_states g prefix S eof = Ok r.
+
+Lemma C13_generate_total_partial : C13_generate_total_partial_stmt.
+Proof.
+  intros ms g prefix S eof WF SOK RC. unfold generate_tables. rewrite elements_unfold.
+  destruct (C13_first_terminates_proof (ext_grammar g S eof) (wf4 g S eof WF SOK)) as (g5 & H5 & _).
+  rewrite H5. cbn [bind].
+  assert (Hf : forall e, In e [mkItem (Nt (total_nt g)) 0 0 eof] -> fetchable g5 e).
+  { intros e [<-|[]]. eapply good_fetchable. eapply good_init; eauto. }
+  pose proof (hull_fuel_total g5 (hull_budget g5) _ Hf) as Hht.
+  change (hull_fuel (hull_budget g5) g5) with (hull g5) in Hht.
+  destruct Hht as [Hh|[h Hh]]; rewrite Hh; cbn [bind]; [left; reflexivity|].
+  pose proof (SInv_init g S eof WF SOK RC g5 H5 h Hh) as HS0.
+  destruct (elements_loop_total g S eof WF SOK RC g5 H5 ms [mkSt h []] 0%nat HS0) as [Hl|[states Hl]];
+    rewrite Hl; cbn [bind]; [left; reflexivity|].
+  destruct (elements_inv g S eof WF SOK RC g5 H5 ms h states Hh Hl) as [HS _].
+  destruct (fill_states_total g5 prefix eof states 0%Z []
+              (SInv_fill_cond g S eof WF SOK RC g5 H5 states HS)) as [r Hr].
+  rewrite Hr. cbn [bind]. destruct r as [[rows jrows] confs]. right. eauto.
 Qed.
 
 Print Assumptions C13_sound_stmt_false.
@@ -549,3 +594,4 @@ Print Assumptions C13_driver_safe_stmt_false.
 Print Assumptions C13_generate_total_stmt_false.
 Print Assumptions C13_sound_partial.
 Print Assumptions C13_driver_safe_partial.
+Print Assumptions C13_generate_total_partial.
